@@ -33,7 +33,9 @@ RULE = ('generated modules (2-4 doctests; statements: bind/print/increment/probe
         'globals G H, reads of names only other doctests bind, replaced sys.stdout, warnings.warn, raise, ExitTestException; wants: '
         'correct / wrong / matched through trailing output / matching only a stale unmatched buffer; block and inline directives; '
         'SKIP, REQUIRES(unmet), -REPORT_x, simplefilter("error") or a replaced sys.stdout left on at the end) x histories of 1..8 '
-        'steps (any order, repetition, subset; 25% of the cases also use on_error="raise"): record of every step (ending, '
+        'steps (any order, repetition, subset; 25% of the cases also use on_error="raise"; 40% run with a non-empty '
+        'config default_runtime_state — booleans and/or a REQUIRES set, ONE dict shared by all runs as the runner does — which must '
+        'come back unmodified): record of every step (ending, '
         'passed/failed/skipped, failure kind/part/line, skipped and executed parts, logged stdout per part, start run state, '
         'persisted namespace, module globals, REQUIRES set of DEFAULT_RUNTIME_STATE) compared with the model AND with the doctest run '
         'alone in a fresh process; the same modules twice through runner.doctest_module. non-trivial = history of >= 2 steps; '
@@ -52,8 +54,9 @@ K_C11_B_SOURCE = ('def f0():\n    """\n    Example:\n        >>> # xdoctest: +RE
 
 
 def shared_config_set(tmpdir):
-    """K-C11-b: a REQUIRES *set* given through config['default_runtime_state'] is shared by reference by every
-    doctest of the module run (RuntimeState.__init__ deep-copies only DEFAULT_RUNTIME_STATE)"""
+    """regression input of the former finding K-C11-b (repaired by 405bdaf): a REQUIRES *set* given through
+    config['default_runtime_state'] was shared by reference by every doctest of the module run; returns a hit
+    when that happens again"""
     import os
     from xdoctest import runner
     p = os.path.join(tmpdir, 'xv11b_%d.py' % os.getpid())
@@ -83,14 +86,14 @@ def _strip_ending(outcome):
     return outcome.split(' ', 1)[1]
 
 
-def check_case(docs, history, mode, tmpdir, want_model=False, unrestricted=False):
+def check_case(docs, history, mode, tmpdir, want_model=False, unrestricted=False, defaults=None):
     """run the history on the real code and apply the independent oracle.
     returns dict(failures=[...], records=[...], model_line=..., nparts_ok=bool)"""
     case = ci.Case(docs, tmpdir)
     res = {'failures': [], 'records': [], 'model_line': None, 'source': case.source}
     history = [(int(i), oe) for i, oe in history]
     if mode == 'runner':
-        seen, errors = ci.run_module_runner(case, times=2)
+        seen, errors, cfgs = ci.run_module_runner(case, times=2, defaults=defaults)
         recs = [r for _, r in seen]
         n = len(docs)
         steps = [(int(name[1:]), 'r') for name, _ in seen]
@@ -102,18 +105,21 @@ def check_case(docs, history, mode, tmpdir, want_model=False, unrestricted=False
         history = steps
         exs = case.parse()
     else:
-        exs, recs = ci.run_history(case, history)
+        exs, recs, cfgs = ci.run_history(case, history, defaults)
     res['records'] = recs
+    if cfgs[0] != cfgs[1]:
+        res['failures'].append({'what': "the caller's config['default_runtime_state'] was modified by the runs", 'observed': cfgs[1],
+                                'expected': cfgs[0]})
     res['history'] = history
     if want_model:
-        res['model_line'] = ci.model_line(case, exs, history)
+        res['model_line'] = ci.model_line(case, exs, history, defaults)
     alone = {}
     stale = set()      # objects whose last run ended by propagating (K-C11-a predicate) — direct mode only
     mod0 = 'mod=' + ci._fmt_ns(dict(gi.MODGLOBALS))
     for k, ((i, oe), rec) in enumerate(zip(history, recs)):
         fields = rec.split(' ')
         if i not in alone:
-            alone[i] = ci.run_alone(case, i)
+            alone[i] = ci.run_alone(case, i, defaults)
         exp = alone[i]
         applies = unrestricted or (i not in stale) or mode == 'runner'
         got_o, exp_o = ci.outcome_of(rec), ci.outcome_of(exp)
@@ -145,7 +151,7 @@ def _gen(rng, quick):
     docs = gi.gen_case(rng)
     rp = 0.3 if rng.random() < 0.25 else 0.0
     history = gi.gen_history(rng, len(docs), maxlen=8, raise_prob=rp)
-    return docs, history
+    return docs, history, gi.gen_defaults(rng)
 
 
 def _shard(args):
@@ -158,18 +164,21 @@ def _shard(args):
     buf = io.StringIO()
     with ci.scratch() as d, contextlib.redirect_stdout(buf):
         jobs = [('direct',) + _gen(rng, True) for _ in range(count)]
-        jobs += [('runner', gi.gen_case(rng), []) for _ in range(runner_count)]
+        jobs += [('runner', gi.gen_case(rng), [], gi.gen_defaults(rng, 0.5)) for _ in range(runner_count)]
         lines = []
         results = []
-        for mode, docs, history in jobs:
-            r = check_case(docs, history, mode, d, want_model=True)
+        for mode, docs, history, defaults in jobs:
+            r = check_case(docs, history, mode, d, want_model=True, defaults=defaults)
+            r['defaults'] = defaults
             results.append((mode, docs, r))
             lines.append(r['model_line'])
         answers = driver.run_lines([l for l in lines if l is not None], jobs=1)
         ai = 0
         for (mode, docs, r), line in zip(results, lines):
-            inp = {'docs': docs, 'history': [list(s) for s in r['history']], 'mode': mode}
+            inp = {'docs': docs, 'history': [list(s) for s in r['history']], 'mode': mode, 'defaults': r['defaults']}
             out['n'] += len(r['records'])
+            if r['defaults']:
+                tag('%s:user-default-state' % mode)
             if line is None:
                 out['unknown'] += 1
                 continue
@@ -214,6 +223,13 @@ def correspondence(ctx, corr):
             corr.expect_fail('history-vs-alone', e['input'], e['expected'], e['impl'], e['why'])
         for s in r['samples']:
             corr.sample(s)
+    # regression: the input of the repaired K-C11-b must pass
+    with ci.scratch() as d:
+        h = shared_config_set(d)
+        corr.count('regression:shared-config-set')
+        if h:
+            corr.expect_fail('regression:shared-config-set', h['input'], h['failure']['expected'], h['failure']['observed'],
+                             h['failure']['what'])
     # the witness of K-C11-a is what the model says it is, on the real code
     with ci.scratch() as d:
         r = check_case(K_C11_A['docs'], K_C11_A['history'], 'direct', d, want_model=True)
@@ -225,7 +241,7 @@ def correspondence(ctx, corr):
         corr.sample({'op': 'history', 'witness': 'K-C11-a', 'records': r['records']})
 
 
-def _shrink(docs, history, mode, d, pred):
+def _shrink(docs, history, mode, d, pred, defaults=None):
     """drop history steps while some failure satisfying `pred` remains"""
     if mode == 'runner':
         return history
@@ -237,12 +253,28 @@ def _shrink(docs, history, mode, d, pred):
             h2 = h[:k] + h[k + 1:]
             if not h2:
                 continue
-            r = check_case(docs, h2, mode, d, unrestricted=True)
+            r = check_case(docs, h2, mode, d, unrestricted=True, defaults=defaults)
             if any(pred(f) for f in r['failures']):
                 h = h2
                 changed = True
                 break
     return h
+
+
+def _hit_of(docs, history, mode, defaults, d):
+    """apply the oracle to one input; a shrunk hit or None"""
+    r = check_case(docs, history, mode, d, unrestricted=True, defaults=defaults)
+    if not r['failures']:
+        return None
+    what = r['failures'][0]['what']
+    h = _shrink(docs, r['history'], mode, d, lambda f: f['what'] == what, defaults=defaults)
+    # do the user defaults matter? (smaller input if not)
+    if defaults and any(f['what'] == what for f in check_case(docs, h, mode, d, unrestricted=True)['failures']):
+        defaults = None
+    r2 = check_case(docs, h, mode, d, unrestricted=True, defaults=defaults)
+    fs = [f for f in r2['failures'] if f['what'] == what] or r['failures']
+    return {'kind': 'history', 'input': {'docs': docs, 'history': [list(s) for s in r2['history']], 'mode': mode, 'defaults': defaults},
+            'module': r2['source'], 'failure': fs[0], 'records': r2['records']}
 
 
 def _search_shard(args):
@@ -253,15 +285,12 @@ def _search_shard(args):
     with ci.scratch() as d, contextlib.redirect_stdout(buf):
         for t in range(count):
             mode = 'runner' if t % 8 == 7 else 'direct'
-            docs, history = _gen(rng, True)
-            r = check_case(docs, history, mode, d, unrestricted=True)
-            if r['failures']:
-                what = r['failures'][0]['what']
-                h = _shrink(docs, r['history'], mode, d, lambda f: f['what'] == what)
-                r2 = check_case(docs, h, mode, d, unrestricted=True)
-                fs = [f for f in r2['failures'] if f['what'] == what] or r['failures']
-                hits.append({'kind': 'history', 'input': {'docs': docs, 'history': [list(s) for s in r2['history']], 'mode': mode},
-                             'module': r2['source'], 'failure': fs[0], 'records': r2['records']})
+            docs, history, defaults = _gen(rng, True)
+            if t % 2 == 1 and not defaults:
+                defaults = gi.gen_defaults(rng, 1.0)      # half of the search stream runs with user default directives
+            h = _hit_of(docs, history, mode, defaults, d)
+            if h:
+                hits.append(h)
                 if len(hits) >= 2:
                     break
     return hits
@@ -277,15 +306,9 @@ def search(ctx, corr, broken):
                 inp = src['input']
                 if 'docs' not in inp:
                     continue
-                r = check_case(inp['docs'], inp['history'], inp.get('mode', 'direct'), d, unrestricted=True)
-                if r['failures']:
-                    what = r['failures'][0]['what']
-                    h = _shrink(inp['docs'], r['history'], inp.get('mode', 'direct'), d, lambda f: f['what'] == what)
-                    r2 = check_case(inp['docs'], h, inp.get('mode', 'direct'), d, unrestricted=True)
-                    fs = [f for f in r2['failures'] if f['what'] == what] or r['failures']
-                    hits.append({'kind': 'history', 'input': {'docs': inp['docs'], 'history': [list(s) for s in r2['history']],
-                                                             'mode': inp.get('mode', 'direct')},
-                                 'module': r2['source'], 'failure': fs[0], 'records': r2['records']})
+                h = _hit_of(inp['docs'], inp['history'], inp.get('mode', 'direct'), inp.get('defaults'), d)
+                if h:
+                    hits.append(h)
     res = par.pmap(_search_shard, [(ctx.seed, s, 60) for s in range(16)])
     for r in res:
         hits.extend(r)
@@ -304,7 +327,8 @@ def _is_k_c11_a(inp, tmpdir):
     such an object is cleared by hand before the re-run"""
     if inp.get('mode') != 'direct':
         return False
-    r = check_case(inp['docs'], inp['history'], 'direct', tmpdir, unrestricted=True)
+    defaults = inp.get('defaults')
+    r = check_case(inp['docs'], inp['history'], 'direct', tmpdir, unrestricted=True, defaults=defaults)
     if not r['failures']:
         return False
     for f in r['failures']:
@@ -314,13 +338,17 @@ def _is_k_c11_a(inp, tmpdir):
     case = ci.Case(inp['docs'], tmpdir, tag='n')
     ci.patch_runtime_state()
     exs = case.parse()
+    if defaults:
+        cfg = ci.make_defaults(defaults)
+        for e in exs:
+            e.config['default_runtime_state'] = cfg
     ok = True
     with ci.ProcState():
         buf = io.StringIO()
         with contextlib.redirect_stdout(buf):
             for i, oe in inp['history']:
                 rec = ci.observe_run(case, exs[int(i)], oe)
-                exp = ci.run_alone(case, int(i))
+                exp = ci.run_alone(case, int(i), defaults)
                 a, b = ci.outcome_of(rec), ci.outcome_of(exp)
                 if oe == 'e':
                     a, b = _strip_ending(a), _strip_ending(b)
@@ -334,8 +362,6 @@ def _is_k_c11_a(inp, tmpdir):
 
 def classify(ctx, hit):
     inp = hit.get('input') or {}
-    if hit.get('kind') == 'shared-config-set' and 'set()' in inp.get('config', ''):
-        return 'K-C11-b'
     if 'docs' not in inp:
         return None
     with ci.scratch() as d:
@@ -350,9 +376,6 @@ def classify(ctx, hit):
 
 
 def replay_finding(ctx, finding):
-    if finding['id'] == 'K-C11-b':
-        with ci.scratch() as d:
-            return shared_config_set(d) is not None
     if finding['id'] != 'K-C11-a':
         return False
     with ci.scratch() as d:
@@ -374,8 +397,11 @@ def replay(ctx, failing):
     with ci.scratch() as d:
         buf = io.StringIO()
         with contextlib.redirect_stdout(buf):
-            r = check_case(inp['docs'], inp['history'], inp.get('mode', 'direct'), d, unrestricted=True)
+            r = check_case(inp['docs'], inp['history'], inp.get('mode', 'direct'), d, unrestricted=True,
+                           defaults=inp.get('defaults'))
     print('module under test:\n' + r['source'])
+    if inp.get('defaults'):
+        print("config['default_runtime_state'] = %s (one dict shared by all runs)" % ci.render_defaults(ci.make_defaults(inp['defaults'])))
     print('mode: %s   history (doctest index, r=on_error return / e=raise): %r' % (inp.get('mode', 'direct'), r['history']))
     for k, rec in enumerate(r['records']):
         print('  step %d: %s' % (k, rec))
